@@ -39,7 +39,12 @@ def large_campaign(ctx, strat, evaluate, n, label="large-module"):
     @settings(max_examples=n, deadline=None, database=None, phases=[Phase.generate], suppress_health_check=list(HealthCheck))
     @given(strat)
     def run(case):
-        r = evaluate(case)
+        from vlib.harness import safe_evaluate
+
+        class _Mod:
+            pass
+        _Mod.evaluate = staticmethod(evaluate)
+        r = safe_evaluate(_Mod, case)
         r.labels.append(label)
         r.labels.append(f"{label}:items>={len(case['module']['items']) // 50 * 50}")
         ctx.record(case, r)
